@@ -228,8 +228,13 @@ func TestC20Exhaustive(t *testing.T) {
 
 // genText draws a long text with many repeated vfLines, then an edited copy.
 func vfGenPair(t *rapid.T) (string, string) {
-	vocab := []string{"alpha", "beta", "", "  indented", "x", "trailing  ", "{", "}", "@@ -1 +1 @@", "-have x", "+want y", "      ", "\r", "é日本"}
+	vocab := []string{"alpha", "beta", "", "  indented", "x", "trailing  ", "{", "}", "@@ -1 +1 @@", "-have x", "+want y", "      ", "\r", "é日本",
+		"load 50% done", "%", "%%", "%d items", "100%", "%s %v %!", "%(ANY)", "\\n", "\x00", "a\tb"}
 	nv := rapid.IntRange(2, len(vocab)).Draw(t, "nvocab")
+	// a rotated window of the vocabulary: few distinct lines, many repeats,
+	// every entry reachable
+	rot := rapid.IntRange(0, len(vocab)-1).Draw(t, "rot")
+	vocab = append(append([]string(nil), vocab[rot:]...), vocab[:rot]...)
 	line := rapid.SampledFrom(vocab[:nv])
 	base := rapid.SliceOfN(line, 0, rapid.SampledFrom([]int{3, 8, 30, 120, 400}).Draw(t, "maxlen")).Draw(t, "base")
 	other := append([]string(nil), base...)
@@ -384,6 +389,19 @@ func vfMatch(toks []vfTok, rs []rune) bool {
 		return res
 	}
 	return m(0, 0)
+}
+
+// The date placeholders are documented as UTC. The process's local zone is set
+// to one in which the calendar date differs from the UTC date right now, so
+// that an expansion in local time is told apart (the oracle uses UTC only; if
+// the run crosses the hour where the two dates coincide the check merely loses
+// this sensitivity).
+func init() {
+	if h := time.Now().UTC().Hour(); h < 11 {
+		time.Local = time.FixedZone("verif-12", -12*3600)
+	} else {
+		time.Local = time.FixedZone("verif+14", 14*3600)
+	}
 }
 
 var vfLitAlphabet = []rune("ab 1.\n*+?()[]{}|^$\\-é")
